@@ -86,7 +86,9 @@ def check_expand(ctx, spec, expanded, what, sig0="expand"):
             sig = sig0 + "/wrong-meta-values"
         elif "collocation" not in dims:
             sig = sig0 + "/non-collocation-var-changed"
-        ctx.check(O.same_values(gvals, vals) and gvals.dtype == vals.dtype,
+        ctx.check(O.same_values(gvals, vals) and (
+            gvals.dtype == vals.dtype
+            or (gvals.dtype.kind in "OU" and vals.dtype.kind in "OU")),
                   sig, lambda: (
                       "%s: variable %s %r\npairs=%r\nstored=%r\nexpected=%r\n"
                       "got=%r (dtype %s)" % (
@@ -100,6 +102,10 @@ KINDS = {
     "std": lambda m, a: np.nanstd(m, axis=a),
     "max": lambda m, a: np.nanmax(m, axis=a),
     "median": lambda m, a: np.nanmedian(m, axis=a),
+    # collapsers that hand back a part (a view) of the bin matrix: the first
+    # partner in pair order, and the last of the slots
+    "first": lambda m, a: m[0],
+    "last": lambda m, a: m[-1],
     # number of rows of the bin matrix ("N(max. number of secondaries per
     # primary) x N(unique primaries)")
     "slots": lambda m, a: np.full(m.shape[:a] + m.shape[a + 1:], m.shape[a]),
@@ -158,6 +164,11 @@ def check_collapse(ctx, spec, collapsed, reference, custom, what):
                                                    sorted(got)))
     funcs = {"mean": "mean", "std": "std", "number": "number"}
     funcs.update(_parse_custom(custom))
+    if hasattr(ctx, "label") and {"first", "last"} & set(funcs.values()):
+        ctx.label("custom-returns-view")
+        shapes = [r["mean"].shape for r in exp.values()]
+        if len(shapes) > len(set(shapes)):
+            ctx.label("custom-returns-view+same-shape-variables")
     # no other collapsed variable than the ones asked for in THIS call
     wanted = {"%s_%s" % (name, func) for name in exp for func in funcs}
     unexpected = sorted(
@@ -210,6 +221,9 @@ def check_collapse(ctx, spec, collapsed, reference, custom, what):
                 ctx.check(gvals.shape == res[kind].shape
                           and gvals.dtype.kind in "iu"
                           and np.array_equal(gvals, res[kind]), sig, detail)
+            elif kind in ("first", "last"):
+                ctx.check(O.same_values(
+                    np.asarray(gvals, dtype=float), res[kind]), sig, detail)
             elif kind in ("max", "median"):
                 ctx.check(O.close_values(gvals, res[kind], res["scale"],
                                          rtol=1e-15), sig, detail)
@@ -311,6 +325,9 @@ def classify(ctx, case, spec):
               "one-to-many" if one_to_many else None,
               "many-to-one" if many_to_one else None,
               "one-to-one" if not one_to_many and not many_to_one else None)
+    a, b = spec["names"]
+    if a.startswith(b) or b.startswith(a):
+        ctx.label("group-name-begins-other")
     if p != sorted(p):
         ctx.label("unsorted-primary-indices")
     if list(zip(p, s)) != sorted(zip(p, s)) and \
@@ -599,6 +616,83 @@ def check_history(case, ctx):
 
 
 # --------------------------------------------------------------------------
+# suite: stored compact data read through Collocations (FileSet subclass)
+# --------------------------------------------------------------------------
+READ_MODES = [None, "collapse", "expand", "compact"]
+
+
+def check_files(case, ctx):
+    """The compact data set is written to a NetCDF file and read back through
+    Collocations(path, reference=..., collapser=..., read_mode=...) in every
+    read mode; each answer is compared with the oracle for collapse / expand
+    of the stored compact data (read_mode None = "collapse")."""
+    import os
+    import shutil
+    import tempfile
+    import typhon.collocations.common as common
+
+    ds = G.build_compact(case, case["parts"][0])
+    spec = O.snapshot(ds)
+    if O.validity_problems(spec):
+        raise AssertionError("generated data set is invalid")
+    ctx.nontrivial = classify(ctx, case, spec)
+    ctx.label("from-file")
+    names = spec["names"]
+    _first_plain_collapse(ctx, ds, spec, "files, first (plain) collapse of "
+                          "the case")
+    ref_kind = case["reference"]
+    reference = {"default": None, "primary": names[0],
+                 "secondary": names[1], "unknown": "no_such_group"}[ref_kind]
+    ref_name = names[1] if ref_kind == "secondary" else names[0]
+    custom = list(case["custom"])
+    ctx.label("ref-" + ref_kind, "custom" if custom else None)
+    tmp = tempfile.mkdtemp(prefix="vp-c13-")
+    try:
+        path = os.path.join(
+            tmp, "{year}{month}{day}-{hour}{minute}{second}.nc")
+        filename = os.path.join(tmp, "20180301-000000.nc")
+        common.Collocations(path=path).write(ds.copy(deep=True), filename)
+        for mode in case["modes"]:
+            what = "Collocations(reference=%r, collapser names %r, " \
+                "read_mode=%r).read(file)" % (
+                    reference, sorted(_parse_custom(custom)), mode)
+            kwargs = {"path": path}
+            if mode is not None or case["explicit_none"]:
+                kwargs["read_mode"] = mode
+            if reference is not None:
+                kwargs["reference"] = reference
+            if custom:
+                kwargs["collapser"] = _collapsers(custom)
+            fileset = common.Collocations(**kwargs)
+            ctx.label("read_mode-%s" % mode)
+            collapsing = mode in (None, "collapse")
+            if collapsing and ref_kind == "unknown":
+                try:
+                    res = fileset.read(filename)
+                except ValueError:
+                    continue
+                ctx.fail("collapse/unknown-reference-accepted",
+                         "%s returned %r" % (what, res))
+                continue
+            data = fileset.read(filename)
+            if collapsing:
+                check_collapse(ctx, spec, data, ref_name, custom, what)
+            elif mode == "expand":
+                check_expand(ctx, spec, data, what)
+            else:
+                got = _as_spec_vars(data)
+                for name, (dims, vals) in spec["vars"].items():
+                    ok = name in got and got[name][0] == dims and \
+                        O.same_values(got[name][1], vals)
+                    ctx.check(ok, "files/compact-data-changed", lambda: (
+                        "%s: %s stored as %r %r, read as %r" % (
+                            what, name, dims, vals.tolist(),
+                            got.get(name, (None, None)))))
+    finally:
+        shutil.rmtree(tmp, ignore_errors=True)
+
+
+# --------------------------------------------------------------------------
 # suite 2: results of Collocator.collocate
 # --------------------------------------------------------------------------
 def check_collocator(case, ctx):
@@ -694,6 +788,9 @@ def suites(tier):
               examples={"quick": 120, "thorough": 2000},
               essential_labels=("custom-then-plain",
                                 "custom-replaces-standard")),
+        Suite("files", _tracked(check_files), strategy=G.file_cases(),
+              examples={"quick": 40, "thorough": 600},
+              essential_labels=("read_mode-None", "ref-secondary")),
         Suite("small-patterns-exhaustive", _tracked(check_built),
               cases=G.small_pattern_cases, exhaustive=True),
         Suite("collocator", _tracked(check_collocator), strategy=G.collocator_cases(),
